@@ -16,10 +16,13 @@ impl Code {
     pub fn parse(interpreter: &Interpreter, script: &str) -> Result<Self, Error> {
         let parse = SimpleSLParser::parse(Rule::input, script)?;
         let mut local_variables = LocalVariables::new(interpreter);
+        // a statement is folded in an environment that holds only what the folding of the statements
+        // before it bound (as `Block::recreate` does), not the names the statement itself has just declared
+        let mut recreated_variables = LocalVariables::new(interpreter);
         let instructions = parse
             .map(|pair| {
                 InstructionWithStr::new(pair, &mut local_variables)
-                    .and_then(|iws| Ok(iws.recreate(&mut local_variables)?))
+                    .and_then(|iws| Ok(iws.recreate(&mut recreated_variables)?))
             })
             .collect::<Result<_, Error>>()?;
         Ok(Self { instructions })
